@@ -100,3 +100,30 @@ Proof.
   apply Forall_forall. intros y Hy. apply in_map_iff in Hy. destruct Hy as (x & <- & Hx).
   rewrite Forall_forall in Hall. now apply Hall.
 Qed.
+
+(* ---- what is in the table was installed by the history ---- *)
+Lemma sweep_sub s k j : In j (iget (insts (sweep true s)) k) -> In j (iget (insts s) k).
+Proof. unfold sweep. cbn [insts]. intros H. apply fold_expire_sub in H. tauto. Qed.
+
+Lemma sweep_next_id f s : next_id (sweep f s) = next_id s.
+Proof. reflexivity. Qed.
+
+Lemma crun_sub ops : forall s k j, In j (iget (insts (crun true s ops)) k) ->
+  In j (iget (insts s) k) \/ In j (installed (next_id s) ops).
+Proof.
+  induction ops as [|o ops IH]; intros s k j H; [left; exact H|].
+  cbn [crun fold_left] in H. fold (crun true (cstep true s o) ops) in H.
+  apply IH in H. destruct o as [chan token key created life | dt]; cbn [cstep installed] in *.
+  - rewrite sweep_next_id in H. cbn [next_id] in H. destruct H as [H|H]; [|right; right; exact H].
+    apply sweep_sub in H. cbn [insts] in H. rewrite iget_tset in H.
+    destruct (N.eqb_spec k chan) as [->|]; [|left; exact H].
+    apply in_app_or in H. destruct H as [H|[<-|[]]]; [left; exact H | right; left; reflexivity].
+  - rewrite sweep_next_id in H. cbn [next_id] in H. destruct H as [H|H]; [|right; exact H].
+    apply sweep_sub in H. left. exact H.
+Qed.
+
+Lemma accepts_spec s chan key : accepts s chan key = true <-> exists i, In i (iget (insts s) chan) /\ i_key i = key.
+Proof.
+  unfold accepts. rewrite existsb_exists. split; intros (i & H1 & H2); exists i; split; try assumption.
+  - now apply N.eqb_eq. - now apply N.eqb_eq.
+Qed.
